@@ -29,6 +29,7 @@ type World struct {
 	NPkgs    int
 	NFuncs   int
 	LoadErrs []string
+	Dropped  []string // helpers removed from the index by the normaliser (fully inlined, unreferenced)
 }
 
 // packages whose type errors are tolerated: cgo packages whose C headers are
